@@ -10,7 +10,7 @@ import (
 )
 
 func checkC12(p *Program, r *Report) {
-	r.Explanation = "Decided for every record set and query: in index.(*SlimIndex).Get and RangeGet every return is either the constant (\"\", false) taken exactly when the trie reports not-found, or the unmodified result pair of DataReader.Read(offset, key), where key is the method's own parameter and offset is the value the trie returned for that key, type-asserted to the type the index encoder produces; Get routes to (*SlimTrie).Get and RangeGet to (*SlimTrie).RangeGet; the index is built with an encoder whose Decode boxes exactly the asserted type, from the offsets of the caller's items in order. Since the trie alone has false positives, answering only through the key-verifying reader is necessary for exactness."
+	r.Explanation = "Decided for every record set and query: in index.(*SlimIndex).Get and RangeGet every return is either the constant (\"\", false) taken exactly when the trie reports not-found, or the unmodified result pair of DataReader.Read(offset, key), where key is the method's own parameter and offset is the value the trie returned for that key, type-asserted to the type the index encoder produces; Get routes to (*SlimTrie).Get and RangeGet to (*SlimTrie).RangeGet; the index is built with an encoder whose Decode boxes exactly the asserted type, from the offsets of the caller's items in order. Conversion helpers with several type cases are accepted when the extra path conditions are type tests of the trie's value and the offset is built from that value alone; every trie the constructor can build has an encoder whose boxed type both lookups handle; (narrow) no int64 offset is narrowed without constant bound tests, in the same function, whose accepted region around 0 fits the target type (or the round-trip idiom). Since the trie alone has false positives, answering only through the key-verifying reader is necessary for exactness."
 	r.NotCovered = "The trie's own answers for indexed keys (C01/C02) and the reader's verification (user code)."
 	r.Trusted = []string{"go/ssa, go/types"}
 	r.Assumptions = []string{"the DataReader verifies the record key as the interface documents"}
